@@ -566,10 +566,18 @@ Proof.
   f_equal. apply IH. exact H2.
 Qed.
 
+(* a slot matches a short name iff it is not a long-name fragment and its 11 name bytes are the name *)
+Lemma matches_parts sl name :
+  matches sl name = true -> is_lfn (get8 sl 11) = false /\ firstn 11 sl = name.
+Proof.
+  unfold matches. intros H. apply andb_true_iff in H. destruct H as [H1 H2].
+  apply negb_true_iff in H1. split; [exact H1|]. apply list_eqb_true. exact H2.
+Qed.
+
 Lemma matches_valid name sl :
   get8 name 0 <> 0 -> get8 name 0 <> 229 -> matches sl name = true -> is_valid sl = true.
 Proof.
-  intros H0 H1 Hm. unfold matches in Hm. apply list_eqb_true in Hm.
+  intros H0 H1 Hm. apply matches_parts in Hm. destruct Hm as [_ Hm].
   assert (E : get8 sl 0 = get8 name 0).
   { rewrite <- Hm. unfold get8. destruct sl; reflexivity. }
   unfold is_valid, is_end. rewrite E.
@@ -700,6 +708,133 @@ Proof.
   unfold walk_fuel. lia.
 Qed.
 
+(* ------------------------------------------------------------------ a lookup never takes a long-name slot *)
+(* The repaired behaviour (the crate's OnDiskDirEntry::matches ignored the attribute byte before:
+   a long-name fragment whose first 11 bytes - sequence byte, five UTF-16 units - spell an 8.3
+   name, possible with CJK long names, was found, opened as a file, and its "first cluster" freed
+   by a delete).  For EVERY state - any directory contents, any FAT, faults or not - whatever
+   find_directory_entry returns was decoded from a slot whose attribute is not the long-name
+   attribute, and the slot whose first byte delete_directory_entry overwrites is no long-name slot. *)
+Lemma c06_bind_inv {A B} (m : M A) (k : A -> M B) s b s' :
+  bind m k s = (Ok b, s') -> exists a s1, m s = (Ok a, s1) /\ k a s1 = (Ok b, s').
+Proof. unfold bind. destruct (m s) as [[a| e | |] s1]; intros H; try discriminate. eauto. Qed.
+
+Lemma c06_try_inv {A} (m : M A) s x s' : try m s = (Ok x, s') ->
+  (exists a, x = inl a /\ m s = (Ok a, s')) \/ (exists e, x = inr e /\ m s = (Err e, s')).
+Proof. unfold try. destruct (m s) as [[a| e | |] s1]; intros H; inversion H; subst; eauto. Qed.
+
+Lemma c06_ret_inv {A} (a b : A) s s' : ret a s = (Ok b, s') -> a = b /\ s = s'.
+Proof. unfold ret. intros H. inversion H. auto. Qed.
+
+(* a loop over blocks that returns Some x returns what its body returned for one block, and
+   stops there *)
+Lemma for_blocks_from_hit {R} (body : N -> M (option R)) : forall n i s x s',
+  for_blocks_from n i body s = (Ok (Some x), s') -> exists blk s0, body blk s0 = (Ok (Some x), s').
+Proof.
+  induction n as [|n IH]; intros i s x s' H; cbn [for_blocks_from] in H; [discriminate H|].
+  apply c06_bind_inv in H. destruct H as (r & s1 & Hb & H). destruct r as [y|].
+  - unfold ret in H. inversion H; subst. exists i, s. exact Hb.
+  - exact (IH _ _ _ _ H).
+Qed.
+
+Lemma walk_dir_hit {R} vi grow (body : N -> M (option R)) : forall fuel cl s x s',
+  walk_dir fuel vi cl grow body s = (Ok (Some x), s') -> exists blk s0, body blk s0 = (Ok (Some x), s').
+Proof.
+  induction fuel as [|f IH]; intros cl s x s' H; cbn [walk_dir] in H; [discriminate H|].
+  apply c06_bind_inv in H. destruct H as (v & s1 & _ & H).
+  apply c06_bind_inv in H. destruct H as (first & s2 & _ & H). cbv zeta in H.
+  apply c06_bind_inv in H. destruct H as (r & s3 & Hr & H). destruct r as [y|].
+  - unfold ret in H. inversion H; subst. unfold for_blocks in Hr.
+    apply c06_bind_inv in Hr. destruct Hr as (u & s4 & _ & Hr). exact (for_blocks_from_hit body _ _ _ _ _ Hr).
+  - destruct (negb (v_fat32 v) && (cl =? CL_ROOT)); [discriminate H|].
+    apply c06_bind_inv in H. destruct H as (nc & s4 & _ & H). destruct nc as [n|e].
+    + exact (IH _ _ _ _ H).
+    + destruct e; try discriminate H. destruct grow; [|discriminate H].
+      apply c06_bind_inv in H. destruct H as (c & s5 & _ & H). exact (IH _ _ _ _ H).
+Qed.
+
+(* one block: the entry found / the offset to overwrite belongs to a slot that is no long-name
+   fragment and carries the name *)
+Lemma find_in_slots_not_lfn n fat32 b blk name : forall i e,
+  find_in_slots n fat32 b blk i name = Some e -> is_lfn (e_attr e) = false /\ e_name e = name.
+Proof.
+  induction n as [|n IH]; intros i e H; cbn [find_in_slots] in H; [discriminate H|]. cbv zeta in H.
+  destruct (is_end (slot b i)); [discriminate H|].
+  destruct (matches (slot b i) name) eqn:Hm; [|exact (IH _ _ H)].
+  inversion H; subst e. cbn [get_entry e_attr e_name]. exact (matches_parts _ _ Hm).
+Qed.
+
+Lemma delete_in_slots_not_lfn n b name : forall i start,
+  delete_in_slots n b i name = Some start ->
+  exists k, start = k * 32 /\ is_end (slot b k) = false /\
+            is_lfn (get8 (slot b k) 11) = false /\ firstn 11 (slot b k) = name.
+Proof.
+  induction n as [|n IH]; intros i start H; cbn [delete_in_slots] in H; [discriminate H|]. cbv zeta in H.
+  destruct (is_end (slot b i)) eqn:He; [discriminate H|].
+  destruct (matches (slot b i) name) eqn:Hm; [|exact (IH _ _ H)].
+  inversion H; subst start. exists i. split; [reflexivity|]. split; [exact He|exact (matches_parts _ _ Hm)].
+Qed.
+
+(* C06: no hypothesis at all *)
+Theorem C06_find_never_lfn vi dc name s e s' :
+  find_directory_entry vi dc name s = (Ok e, s') -> is_lfn (e_attr e) = false /\ e_name e = name.
+Proof.
+  intros H. unfold find_directory_entry in H.
+  apply c06_bind_inv in H. destruct H as (v & s1 & _ & H).
+  apply c06_bind_inv in H. destruct H as (r & s2 & Hw & H).
+  destruct r as [e0|]; [|discriminate H]. unfold ret in H. inversion H; subst e0 s2.
+  destruct (walk_dir_hit _ _ _ _ _ _ _ _ Hw) as (blk & s0 & Hb).
+  apply c06_bind_inv in Hb. destruct Hb as (b & s3 & _ & Hb). apply c06_ret_inv in Hb. destruct Hb as [Hf _].
+  exact (find_in_slots_not_lfn _ _ _ _ _ _ _ Hf).
+Qed.
+
+(* a successful delete read some block b, found in it the slot k (not after the block's end
+   marker, no long-name fragment, carrying the name), and its last action was to set byte k * 32 of
+   that block - the first byte of that slot - to 0xE5 and write the block back *)
+Theorem C06_delete_never_lfn vi dc name s s' :
+  delete_directory_entry vi dc name s = (Ok tt, s') ->
+  exists blk s0 b s1 k,
+    cache_read blk s0 = (Ok b, s1) /\ delete_in_slots 16 b 0 name = Some (k * 32) /\
+    is_end (slot b k) = false /\ is_lfn (get8 (slot b k) 11) = false /\ firstn 11 (slot b k) = name /\
+    (cache_modify (fun b => set_bytes b (k * 32) [229]) ;;; write_back) s1 = (Ok tt, s').
+Proof.
+  intros H. unfold delete_directory_entry in H.
+  apply c06_bind_inv in H. destruct H as (v & s1 & _ & H).
+  apply c06_bind_inv in H. destruct H as (r & s2 & Hw & H).
+  destruct r as [u|]; [|discriminate H]. unfold ret in H. inversion H; subst s2.
+  destruct (walk_dir_hit _ _ _ _ _ _ _ _ Hw) as (blk & s0 & Hb).
+  apply c06_bind_inv in Hb. destruct Hb as (b & s3 & Hread & Hb).
+  destruct (delete_in_slots 16 b 0 name) as [start|] eqn:Hd; [|discriminate Hb].
+  destruct (delete_in_slots_not_lfn _ _ _ _ _ Hd) as (k & -> & He & Hl & Hn).
+  exists blk, s0, b, s3, k. split; [exact Hread|]. split; [exact Hd|].
+  split; [exact He|]. split; [exact Hl|]. split; [exact Hn|].
+  apply c06_bind_inv in Hb. destruct Hb as (u1 & s4 & Hm & Hb).
+  apply c06_bind_inv in Hb. destruct Hb as (u2 & s5 & Hwb & Hb).
+  unfold ret in Hb. inversion Hb; subst s5.
+  unfold bind at 1. rewrite Hm. destruct u2. exact Hwb.
+Qed.
+
+(* the same on the SPEC side: the slot C06_find / PrEntry.delete_directory_entry_spec name as the
+   one found is no long-name slot *)
+Theorem find_matches_not_lfn name l t : find (t_matches name) l = Some t ->
+  is_lfn (get8 (snd t) 11) = false /\ firstn 11 (snd t) = name.
+Proof. intros H. destruct (find_some _ _ H) as [_ Hm]. exact (matches_parts _ _ Hm). Qed.
+
+(* the witness of the old defect: a long-name fragment with sequence byte 0x41 ("last, first")
+   and five UTF-16 units U+4242, attribute 0x0F.  Its first 11 bytes are the 8.3 name
+   "ABBBBBBB.BBB"; the old comparison (the 11 name bytes only) took it for that file. *)
+Definition lfn_slot_cjk : list N :=
+  [65; 66; 66; 66; 66; 66; 66; 66; 66; 66; 66; 15; 0; 99; 66; 66; 66; 66; 66; 66; 66; 66; 66; 66; 66; 66;
+   0; 0; 66; 66; 66; 66].
+Definition lfn_clash_name : list N := 65 :: repeat 66 10.
+Example C06_lfn_slot_not_matched :
+  length lfn_slot_cjk = 32%nat /\ is_lfn (get8 lfn_slot_cjk 11) = true /\
+  is_valid lfn_slot_cjk = true /\
+  list_eqb (firstn 11 lfn_slot_cjk) lfn_clash_name = true /\     (* what the old code compared *)
+  matches lfn_slot_cjk lfn_clash_name = false /\
+  sfn_of_str [65; 66; 66; 66; 66; 66; 66; 66; 46; 66; 66; 66] = Some lfn_clash_name.
+Proof. vm_compute. repeat split; reflexivity. Qed.
+
 (* ------------------------------------------------------------------ the hypotheses are satisfiable *)
 (* a FAT16 volume with a two-cluster directory (clusters 2 -> 3 -> end) holding one entry "A" *)
 Definition exd_vol : vol :=
@@ -731,7 +866,43 @@ Proof.
   eexists. split; [vm_compute; reflexivity|]. split; vm_compute; reflexivity.
 Qed.
 
+(* the long-name witness in a directory: the example volume with that fragment (and the short entry
+   "LONG~1" it belongs to) in front of the entry "A".  The old comparison (11 name bytes only) hits
+   the fragment at (30, 0); the lookup of "ABBBBBBB.BBB" says NotFound, the delete too and leaves
+   the block as it is; the two short entries are found at their slots. *)
+Definition exl_short : list N := [76; 79; 78; 71; 126; 49; 32; 32; 32; 32; 32].
+Definition exl_disk : disk :=
+  disk_set exd_disk 30 (set_bytes (set_bytes (set_bytes zero_block 0 lfn_slot_cjk) 32 (exl_short ++ [32]))
+                                  64 (exd_name ++ [32])).
+Definition exl_state : st :=
+  mk_st exl_disk zero_block None [exd_vol] [] [] 0 0 0 [] [] false 1 1 1.
+
+Example C06_lfn_dir_example :
+  dir_blocks exl_disk exd_vol 2 = Some [30; 31; 32; 33] /\
+  find (fun t : tslot => list_eqb (firstn 11 (snd t)) lfn_clash_name) (live_in_blocks exl_disk [30; 31; 32; 33])
+    = Some (30, 0, lfn_slot_cjk) /\
+  find (t_matches lfn_clash_name) (live_in_blocks exl_disk [30; 31; 32; 33]) = None /\
+  fst (find_directory_entry 0 2 lfn_clash_name exl_state) = Err NotFound /\
+  fst (delete_directory_entry 0 2 lfn_clash_name exl_state) = Err NotFound /\
+  disk_get (s_disk (snd (delete_directory_entry 0 2 lfn_clash_name exl_state))) 30 = disk_get exl_disk 30 /\
+  (exists e, fst (find_directory_entry 0 2 exl_short exl_state) = Ok e /\ e_block e = 30 /\ e_offset e = 32) /\
+  (exists e, fst (find_directory_entry 0 2 exd_name exl_state) = Ok e /\ e_block e = 30 /\ e_offset e = 64) /\
+  map e_name (match fst (iterate_dir_all 0 2 exl_state) with Ok l => l | _ => [] end)
+    = [lfn_clash_name; exl_short; exd_name].
+Proof.
+  split; [vm_compute; reflexivity|]. split; [vm_compute; reflexivity|]. split; [vm_compute; reflexivity|].
+  split; [vm_compute; reflexivity|]. split; [vm_compute; reflexivity|]. split; [vm_compute; reflexivity|].
+  split; [eexists; split; [vm_compute; reflexivity|split; reflexivity]|].
+  split; [eexists; split; [vm_compute; reflexivity|split; reflexivity]|].
+  vm_compute. reflexivity.
+Qed.
+
 Print Assumptions C06_iterate.
+Print Assumptions C06_find_never_lfn.
+Print Assumptions C06_delete_never_lfn.
+Print Assumptions find_matches_not_lfn.
+Print Assumptions C06_lfn_slot_not_matched.
+Print Assumptions C06_lfn_dir_example.
 Print Assumptions C06_find.
 Print Assumptions C06_find_listed.
 Print Assumptions chain_of_walk_fuel.
